@@ -757,7 +757,14 @@ def run_sides(cases_, model_ok, tmo=1700):
         impl = vlib.run_lines(vlib.VHARN, ["fn"], lines, timeout=tmo, env={"VHARN_STORE_DIR": d, "VHARN_STORE_FLUSH": "0"})
         shutil.rmtree(d, ignore_errors=True)
         os.makedirs(d, exist_ok=True)
-        fl = vlib.run_lines(vlib.VHARN, ["fn"], lines, timeout=tmo, env={"VHARN_STORE_DIR": d, "VHARN_STORE_FLUSH": "1"})
+        # the flushing pass writes a segment every 4 events: in large runs it covers an evenly spread subset
+        stride = max(1, -(-len(lines) // 60000))
+        idx = list(range(0, len(lines), stride))
+        sub = vlib.run_lines(vlib.VHARN, ["fn"], [lines[i] for i in idx], timeout=tmo,
+                             env={"VHARN_STORE_DIR": d, "VHARN_STORE_FLUSH": "1"})
+        fl = list(impl)
+        for i, o in zip(idx, sub):
+            fl[i] = o
     finally:
         shutil.rmtree(d, ignore_errors=True)
     impl = [a if a == b else f"{a} FLUSH={(b or '').replace(' ', '_')}" for a, b in zip(impl, fl)]
